@@ -147,6 +147,31 @@ fn fwd(kinds: &[&'static str], dist: u32, style: u8) -> Layout {
     Layout { name: format!("fwd {:?} d={} style={}", kinds, dist, style), items }
 }
 
+/// a far branch immediately followed by a BEQ that goes somewhere else (near), forward and backward:
+/// the repair of a BCC/BMI + BEQ pair applies only when both go to the same label
+fn fwd_other(k1: &'static str, k2: &'static str, dist: u32, style: u8, second_far: bool) -> Layout {
+    // STA m0 / K1 .L / K2 .N / STA m4 / .N / fill / STA m1 / .L / STA m2      (second_far: K2 goes to .L2 after .L)
+    let mut items = vec![Item::Marker(0), Item::Branch(k1, ".L".into())];
+    if second_far {
+        items.push(Item::Branch(k2, ".L2".into()));
+        items.push(Item::Fill(style, dist.saturating_sub(4)));
+        items.push(Item::Marker(1));
+        items.push(Item::Label(".L".into()));
+        items.push(Item::Marker(2));
+        items.push(Item::Label(".L2".into()));
+        items.push(Item::Marker(3));
+    } else {
+        items.push(Item::Branch(k2, ".N".into()));
+        items.push(Item::Marker(4));
+        items.push(Item::Label(".N".into()));
+        items.push(Item::Fill(style, dist.saturating_sub(6)));
+        items.push(Item::Marker(1));
+        items.push(Item::Label(".L".into()));
+        items.push(Item::Marker(2));
+    }
+    Layout { name: format!("fwd-other {} then {} d={} style={} second_far={}", k1, k2, dist, style, second_far), items }
+}
+
 fn bwd(kinds: &[&'static str], dist: u32, style: u8) -> Layout {
     // JMP .start / .L / STA m1 / JMP .end / .start / STA m0 / fill / Bcc .L / STA m2 / .end / STA m3
     let mut items = vec![Item::Jmp(".start".into()), Item::Label(".L".into()), Item::Marker(1), Item::Jmp(".end".into()), Item::Label(".start".into()), Item::Marker(0)];
@@ -243,6 +268,20 @@ pub fn layouts(tier: Tier) -> Vec<Layout> {
             for style in 0..6u8 {
                 v.push(fwd(kinds, d, style));
                 v.push(bwd(kinds, d, style));
+            }
+        }
+    }
+    for k1 in ["BMI", "BCC", "BCS", "BNE"] {
+        for k2 in ["BEQ", "BNE", "BPL"] {
+            if k1 == k2 {
+                continue;
+            }
+            for d in 120..=136u32 {
+                for style in [0u8, 1, 4] {
+                    for second_far in [false, true] {
+                        v.push(fwd_other(k1, k2, d, style, second_far));
+                    }
+                }
             }
         }
     }
@@ -409,7 +448,7 @@ impl Check for C03 {
         true
     }
     fn rule(&self) -> String {
-        "Part 1: branch layouts are built through the public AssemblyCode API (append_asm/append_label/append_inline): one branch of each kind BEQ/BNE/BCC/BCS/BMI/BPL and the pairs BCC+BEQ, BMI+BEQ, forward and backward, every byte distance 116..142 with six filler styles (1/2/3-byte instructions, inline asm with size hint 1, default 3 and 5); all arrangements of two overlapping or nested branches with spans 120..131 and three staggered branches (cascading repairs). After the real check_branches(), the written text is assembled with true encodings (every displacement must fit -128..127, labels unique and defined, size_bytes() must equal the assembled size) and executed on the emulator from all 8 (N,Z,C) flag states; the sequence of marker stores reached must equal the path of a label-level interpreter walking the un-repaired item list with unlimited branches. states/transitions = interpreter steps over (layout, flag state, program counter); every transition is validated against an execution of the repaired real code. Part 2: generated programs with bodies of 108..140 bytes (family F8) at -O0/-O1 under the same range check plus the C01 reference oracle. Non-trivial = check_branches repaired at least one branch.".into()
+        "Part 1: branch layouts are built through the public AssemblyCode API (append_asm/append_label/append_inline): one branch of each kind BEQ/BNE/BCC/BCS/BMI/BPL and the pairs BCC+BEQ, BMI+BEQ, forward and backward, every byte distance 116..142 with six filler styles; a far branch immediately followed by another branch to a different (near or far) label, distances 120..136; (1/2/3-byte instructions, inline asm with size hint 1, default 3 and 5); all arrangements of two overlapping or nested branches with spans 120..131 and three staggered branches (cascading repairs). After the real check_branches(), the written text is assembled with true encodings (every displacement must fit -128..127, labels unique and defined, size_bytes() must equal the assembled size) and executed on the emulator from all 8 (N,Z,C) flag states; the sequence of marker stores reached must equal the path of a label-level interpreter walking the un-repaired item list with unlimited branches. states/transitions = interpreter steps over (layout, flag state, program counter); every transition is validated against an execution of the repaired real code. Part 2: generated programs with bodies of 108..140 bytes (family F8) at -O0/-O1 under the same range check plus the C01 reference oracle. Non-trivial = check_branches repaired at least one branch.".into()
     }
     fn assumptions(&self) -> Vec<String> {
         vec!["fillers are flag-neutral (NOP, STA), so a layout's path depends only on the initial flags".into(), "inline assembly occupies exactly its declared (or default 3) size".into()]
